@@ -9,6 +9,9 @@
 (*    l      Context::lookup(n)                (absent: None)              *)
 (*    canon  Context::canonicalize(n)          (absent: None)              *)
 (*    cl     Context::lookup(canon)            (absent: None)              *)
+(* A line may carry its own database (field db, same shape as the          *)
+(* environment): observations made on many small databases are judged in   *)
+(* one run, each against the database it was made on.                      *)
 (* Lines are independent; a rejected line is reported and judging goes on: *)
 (*    <<"REJECT", line, what>>   what = "lookup" | "canon" | "canonlookup"  *)
 (*    <<"NOTE", line, k>>        the name has k >= 2 candidate readings    *)
@@ -21,29 +24,34 @@ Env == JsonDeserialize(IOEnv.ENV)
 
 ValueOfJson(val) == IF val.t = "num" THEN VNum(val.v, DFromJson(val.d)) ELSE VFloat(DFromJson(val.d), FALSE)
 
-UnitNames == {Env.units[i].name : i \in DOMAIN Env.units}
-DB == [base |-> {Env.base[i] : i \in DOMAIN Env.base},
-       units |-> [n \in UnitNames |-> ValueOfJson(Env.units[CHOOSE i \in DOMAIN Env.units : Env.units[i].name = n].val)],
-       prefixes |-> [i \in DOMAIN Env.prefixes |-> [name |-> Env.prefixes[i].name, v |-> Env.prefixes[i].v]],
-       ans |-> VNone, subst |-> {}, closed |-> TRUE]
+DBOfJson(e) ==
+  [base |-> {e.base[i] : i \in DOMAIN e.base},
+   units |-> [n \in {e.units[i].name : i \in DOMAIN e.units} |->
+                ValueOfJson(e.units[CHOOSE i \in DOMAIN e.units : e.units[i].name = n].val)],
+   prefixes |-> [i \in DOMAIN e.prefixes |-> [name |-> e.prefixes[i].name, v |-> e.prefixes[i].v]],
+   ans |-> VNone, subst |-> {}, closed |-> TRUE]
+DB == DBOfJson(Env)
 
 VARIABLE l
 
 Has(ev, f) == f \in DOMAIN ev
 
 \* R: the admissible readings of the name whose observed lookup is ev[f]
-LookupOK(R, ev, f) == IF Has(ev, f) THEN AdmissibleIn(DB, R, ObsValue(ev[f])) ELSE R = {}
+LookupOK(db, R, ev, f) == IF Has(ev, f) THEN AdmissibleIn(db, R, ObsValue(ev[f])) ELSE R = {}
 
 \* (bound once each: TLC re-evaluates definitions at every use)
-Verdict(ev, i) ==
-  \E Rn \in {Readings(DB, ev.n)} :
-  /\ IF LookupOK(Rn, ev, "l") THEN TRUE ELSE PrintT(<<"REJECT", i, "lookup">>)
+VerdictOn(db, ev, i) ==
+  \E Rn \in {Readings(db, ev.n)} :
+  /\ IF LookupOK(db, Rn, ev, "l") THEN TRUE ELSE PrintT(<<"REJECT", i, "lookup">>)
   /\ IF Has(ev, "canon") /\ Rn # {}
-     THEN \E Rc \in {IF ev.canon = ev.n THEN Rn ELSE Readings(DB, ev.canon)} :
-          /\ IF CanonOKIn(DB, Rn, Rc) THEN TRUE ELSE PrintT(<<"REJECT", i, "canon">>)
-          /\ IF LookupOK(Rc, ev, "cl") THEN TRUE ELSE PrintT(<<"REJECT", i, "canonlookup">>)
+     THEN \E Rc \in {IF ev.canon = ev.n THEN Rn ELSE Readings(db, ev.canon)} :
+          /\ IF CanonOKIn(db, Rn, Rc) THEN TRUE ELSE PrintT(<<"REJECT", i, "canon">>)
+          /\ IF LookupOK(db, Rc, ev, "cl") THEN TRUE ELSE PrintT(<<"REJECT", i, "canonlookup">>)
      ELSE TRUE
-  /\ \E k \in {Cardinality(CandidateReadings(DB, ev.n))} : IF k >= 2 THEN PrintT(<<"NOTE", i, k>>) ELSE TRUE
+  /\ \E k \in {Cardinality(CandidateReadings(db, ev.n))} : IF k >= 2 THEN PrintT(<<"NOTE", i, k>>) ELSE TRUE
+
+Verdict(ev, i) ==
+  IF Has(ev, "db") THEN \E db \in {DBOfJson(ev.db)} : VerdictOn(db, ev, i) ELSE VerdictOn(DB, ev, i)
 
 Init == l = 1
 Next == l <= NRec /\ Verdict(Rec[l], l) /\ l' = l + 1
